@@ -94,20 +94,34 @@ Section PptBuild.
        slide_list = _extract_slide_list_texts(data)        (modelled above)
        container_slides = _parse_containers(data)["slides"] (oracle, recorded)
        raw = _extract_all_text_raw(data)                    (oracle, recorded) *)
+  (* raw-text fallback (as repaired by fixes/C03-ppt-raw-fallback-duplicate-slide.patch): text without slide
+     attribution goes onto the first slide; slide 1 is created only when there is no slide yet *)
+  Definition add_raw (raw : list str) (sl : slide) : slide :=
+    mkSlide (sl_number sl) (sl_title sl) (sl_body sl) (sl_other sl ++ raw).
+
   Definition parse_ppt_document (slide_list container_slides : list (list block)) (raw : list str) : list slide :=
     let src := if negb (is_nil slide_list) then slide_list
                else if negb (is_nil container_slides) then container_slides else [] in
     let slides := build_slides src in
     let all_text := List.concat src in
     if is_nil all_text then
-      (if negb (is_nil raw) then slides ++ [mkSlide 1 None [] raw] else slides)
+      (if negb (is_nil raw) then
+         match slides with
+         | [] => [mkSlide 1 None [] raw]
+         | s0 :: r => add_raw raw s0 :: r
+         end
+       else slides)
     else slides.
 
-  (* the raw fallback fires although slides were already built *)
-  Definition phantom_fallback (slide_list container_slides : list (list block)) (raw : list str) : bool :=
+  (* the code before the repair: the fallback appended ANOTHER slide numbered 1 *)
+  Definition parse_ppt_document_unrepaired (slide_list container_slides : list (list block)) (raw : list str)
+    : list slide :=
     let src := if negb (is_nil slide_list) then slide_list
                else if negb (is_nil container_slides) then container_slides else [] in
-    negb (is_nil src) && is_nil (List.concat src) && negb (is_nil raw).
+    let slides := build_slides src in
+    if is_nil (List.concat src) then
+      (if negb (is_nil raw) then slides ++ [mkSlide 1 None [] raw] else slides)
+    else slides.
 End PptBuild.
 
 (* every slide of the container has at least one non-empty text, or none has any *)
